@@ -825,6 +825,13 @@ func (x *Exec) specCall(e *ast.CallExpr, sc *SpecScope, st *State) *Value {
 			return &Value{Tm: BV2Int(v.Tm, true)}
 		}
 		return &Value{Tm: v.Tm}
+	case "baseref":
+		// reference of the heap object that contains the location a (possibly interior) pointer designates
+		v := arg(0)
+		if v.P != nil {
+			return &Value{Tm: v.P.Base}
+		}
+		return &Value{Tm: v.term()}
 	case "ref":
 		// plain reference of a pointer / interface value
 		return &Value{Tm: arg(0).term()}
